@@ -10,6 +10,8 @@ from ..fold import RegexVal, is_unknown
 from ..srcmodel import walk_local, norm, dotted, guards, body_list_of, enclosing_stmt
 from . import common, forward
 
+from .c14 import seed_guard
+
 META = {
     'explanation': (
         "PAIR rule over every flag site of the parser package (each "
@@ -175,6 +177,8 @@ def check(ctx):
     ctx.attempt(forward.check_all, module_suffixes=('tract.tract', 'tract.tract_parse', 'plssdesc.plss_parse', 'plssdesc.plssdesc', 'trs.trs'))
     ctx.attempt(common.embedded_case_consistency, modules=('rgxlib.warnings',))
     ctx.attempt(common.clause_purity, [f for f in ctx.repo.funcs.values() if f.module.name.endswith(('trs.trs','tract.tract','plssdesc.plss_parse'))])
+    ctx.attempt(common.error_check_covers_all, ctx.repo.func('PLSSParser.check_error_tracts'))
+    ctx.attempt(seed_guard)
 
 
 def _staging_tables(ctx):
@@ -315,7 +319,9 @@ def _flawed(ctx):
 
 TRIGGERS = {
     'well_regex': ['wellbore', 'well', 'Wellbore'],
-    'depth_regex': ['depth', 'depths', 'surface', 'base', 'formation', 'top'],
+    # depth wording also counts inside compounds / plurals (the stems depth,
+    # surf, form are deliberately not word-bounded on the pinned tree)
+    'depth_regex': ['depth', 'depths', 'surface', 'base', 'formation', 'top', 'subsurface', 'formations', 'surfaces'],
     'including_regex': ['including', 'incl.', 'Including'],
     'less_except_regex': ['less and except', 'less', 'except', 'excepting', 'exception',
                           'limited to', 'limitation', 'LESS AND EXCEPT'],
